@@ -186,7 +186,7 @@ func init() {
 	driverAssume := []string{"real NewMux + registerService + ServeHTTP run on fake descriptors registered in a real protoregistry.Files", "getExtensionHTTP answered from the fake method options (stub of proto.GetExtension)", "http.ResponseWriter modelled per net/http's documented rules (fakeRW)", "recording codec for application/x; the decoded body's field content is scripted", "net/url query parsing interpreted from source; values are 'plain' query bytes (no escapes)", "math/rand.Intn forked over its range"}
 	addProp(&PropSpec{
 		ID:        "C07",
-		Harnesses: []HarnessSpec{{Name: "VerifH_serveHTTP_params", Covers: []string{"query-rival", "body-rival", "nested-bound", "query-param", "body-star", "body-field"}}},
+		Harnesses: []HarnessSpec{{Name: "VerifH_serveHTTP_params", Covers: []string{"query-rival", "body-rival", "nested-bound", "query-param", "body-star", "body-field", "unknown-length"}}},
 		Bounds: map[string]string{
 			"quick":    "rules GET /{f}, GET /x/{h.k}, POST /{f}/y body:*, POST /aa/{f} body:h; capture and competing value: independent symbolic strings of 1..3 plain bytes; competing value supplied through the query string and/or the decoded body; optional second query parameter; body of 1..3 symbolic bytes",
 			"thorough": "same",
@@ -310,7 +310,7 @@ func init() {
 	ext("C16", "registration atomicity through the real registerService: a failing registration leaves the published snapshot pointer-identical and the routing state unchanged (histories of C11)",
 		HarnessSpec{Name: "VerifH_registry", Covers: []string{"failed-registration", "register-local-twice"}})
 	ext("C19", "config-rule vs annotation: 3 rule shapes x every ASCII path of 1..8 bytes x {GET, POST}, two muxes built through NewMux(ServiceConfigOption) + registerService vs annotation + registerService",
-		HarnessSpec{Name: "VerifH_config_vs_annotation", Covers: []string{"dispatched", "dispatched-by-rule", "not-dispatched"}})
+		HarnessSpec{Name: "VerifH_config_vs_annotation", Covers: []string{"dispatched", "dispatched-by-rule", "not-dispatched", "only-star-selector"}})
 
 	ext("C06", "gRPC bidirectional stream through serveGRPC: k<=2 request frames of 0..2 symbolic bytes, every partition of bodies <=6 bytes into reads (greedy chunks beyond), truncation of the last 1..2 bytes, j<=2 reply frames",
 		HarnessSpec{Name: "VerifH_serveGRPC_stream", Covers: []string{"clean-eof", "truncated", "replies"}})
@@ -369,7 +369,7 @@ func init() {
 	ext("C03", "real JSON codec (CodecJSON / protojson) through ServeHTTP: path variable + query parameter + JSON body (body: * and body: field) with symbolic escape-free strings of 1..2 bytes",
 		HarnessSpec{Name: "VerifH_serveHTTP_json", Covers: []string{"body-star", "body-field"}})
 	ext("C04", "real JSON codec: the reply decoded from the response body equals the handler's reply",
-		HarnessSpec{Name: "VerifH_serveHTTP_json", Covers: []string{"body-star"}})
+		HarnessSpec{Name: "VerifH_serveHTTP_json", Covers: []string{"body-star", "accept-user-codec"}})
 	for _, id := range []string{"C05", "C18", "C06", "C08", "C03", "C04"} {
 		props[id].Assume = append(props[id].Assume, wsAssume...)
 	}
